@@ -147,6 +147,9 @@ var c11Patterns = []string{
 	"^[0-9][0-9]$", "^[0-9][0-9][0-9]$", "^(a|b|c|d|e|f|g|h|i|j)(0|1|2|3|4|5|6|7|8|9)$", "^(a|b|c|d|e|f|g|h|i|j|k)(0|1|2|3|4|5|6|7|8|9)$", "^[^a]$", "^\\d$", "^\\w$", "^a\\b$", "^a\\z", "\\Aa$",
 	"\\Aa\\z", "^()$", "^(|a)$", "^(a|)$", "^a|b$", "^(a)(b)$", "^((a))$", "^(?:a|b)$", "^(?P<n>a|b)$", "^a\\nb$", "^a\nb$", "^\\x41$", "^é$", "^[é]$", "^ab|ac$", "^a(b)?$", "^[ab]+$", "^(ab)$", "^a.$",
 	"^(?s:a.)$", "^a$$", "^^a$", "^(foo)$", "^foo|$", "^(a|a)$", "^[aa]$", "^(a|b)$(c)", "^[a-cx-z]$", "^[a-j][a-j]$", "^[a-k][a-j]$", "(?U)^a$", "^(?-m:a)$",
+	// case folding switched on INSIDE a capture group; empty character classes (match nothing)
+	"^((?i)abc)$", "^((?i:abc))$", "^x((?i)a)y$", "^(((?i)ab))(c|d)$", "^((?i)a)(b|c)$", "^(a(?i)b)$", "^((?i)a|b)$", "^((?-i)a)$", "(?i)^((?-i)a)$", "(?i)^((?-i:a)b)$",
+	"^[^\\s\\S]$", "^a[^\\w\\W]$", "^[^\\x00-\\x{10FFFF}](a|b)$", "^[^\\d\\D]b$", "^(a|[^\\s\\S])$", "^([^\\s\\S])$", "^a[^\\s\\S]?$",
 }
 
 func c11Exact(o *out, p string) {
@@ -177,21 +180,13 @@ func c11Exact(o *out, p string) {
 		}
 	}
 	// premise of the rewrite theorem: the parser emits no empty class and no empty alternation
-	if ok && len(vals) == 0 {
-		o.checked()
-		if !(simp.Op == syntax.OpConcat && len(simp.Sub) == 2) {
-			o.fail("", fmt.Sprintf("/%s/ yields no literal although it is not the bare ^$", p), rp)
-		}
-	}
 	// the property itself: rewritten only when the regex matches precisely a finite set of whole strings, which is the substituted set
 	if ok {
 		set := map[string]bool{}
 		for _, v := range vals {
 			set[v] = true
 		}
-		if len(vals) == 0 {
-			set[""] = true // /^$/: the caller substitutes the empty string
-		}
+		// (an empty list: the regex matches no value at all - an empty character class - and the caller leaves it alone)
 		for _, s := range append(cands, vals...) {
 			o.checked()
 			if rx.MatchString(s) != set[s] {
@@ -257,7 +252,7 @@ func propC11(o *out, r *rng, thorough bool) {
 		}
 	}
 	// generated regexes from literals, classes, groups, alternation, repetition, anchors and flags
-	atoms := []string{"a", "b", "ab", "[ab]", "[a-c]", "(a|b)", "(ab|c)", "(a)", "a?", "a+", "a*", ".", "\\d", "[0-9]", "(?i:a)", "", "A", "\\n", "a{2}", "(a|b|c)", "[^a]", "\\b"}
+	atoms := []string{"a", "b", "ab", "[ab]", "[a-c]", "(a|b)", "(ab|c)", "(a)", "a?", "a+", "a*", ".", "\\d", "[0-9]", "(?i:a)", "", "A", "\\n", "a{2}", "(a|b|c)", "[^a]", "\\b", "((?i)a)", "((?i:b))", "((?i)ab)", "[^\\s\\S]", "(a(?i)b)"}
 	pre := []string{"^", "^", "^", "", "(?m)^", "(?i)^", "\\A", "(?m:^)", "^(", "(?s)^"}
 	post := []string{"$", "$", "$", "", "(?m:$)", "\\z", ")$"}
 	n := 600
